@@ -68,7 +68,11 @@ func cmdGen(args []string) int {
 	if *raw {
 		seed = *batch
 	}
-	b, _ := json.MarshalIndent(info.Sc.Generate(seed, *tier), "", " ")
+	t := *tier
+	if !*raw {
+		t = tierFor(t, *idx)
+	}
+	b, _ := json.MarshalIndent(info.Sc.Generate(seed, t), "", " ")
 	fmt.Println(string(b))
 	return 0
 }
